@@ -18,4 +18,24 @@ def use_repo() -> str:
         sys.path.insert(0, repo)
     sys.dont_write_bytecode = True
     os.environ.setdefault("CI", "true")
+    # the first process of a check stamps the tree; every interpreter started later compares (vsim.child)
+    os.environ.setdefault("VSIM_REPO_STAMP", repo_stamp())
     return repo
+
+
+def repo_stamp() -> str:
+    """Identity of the source tree under test: names, sizes and mtimes of its Python and YAML files."""
+    import hashlib
+    repo = os.path.realpath(REPO)
+    h = hashlib.sha256()
+    for top in ("clematis", "configs"):
+        for d, dirs, files in os.walk(os.path.join(repo, top)):
+            dirs[:] = sorted(x for x in dirs if x != "__pycache__")
+            for f in sorted(files):
+                if f.endswith((".py", ".yaml", ".yml", ".json")):
+                    try:
+                        st = os.stat(os.path.join(d, f))
+                        h.update(("%s/%s:%d:%d\n" % (os.path.relpath(d, repo), f, st.st_size, st.st_mtime_ns)).encode())
+                    except OSError:
+                        pass
+    return h.hexdigest()[:16]
